@@ -9,8 +9,9 @@ import os
 import vlib
 
 
-def collect_ws(prop, tier):
-    """the peerBad rows of the WsGen table on a real ws.WebsocketConnection; MonWs.tla's C08 formula and the crash rule"""
+def collect_ws(prop, tier, events=("peerBad",), rule=None):
+    """rows of the WsGen table with the given events on a real ws.WebsocketConnection, judged by MonWs.tla's formulas for prop
+    (C08: frames a SHIP peer must never send; C06: a transport that is slow for a while loses nothing) and the crash rule"""
     known = vlib.load_known()
     q = tier == "quick"
     violations, known_hits = [], {}
@@ -23,13 +24,13 @@ def collect_ws(prop, tier):
         g = vlib.tlc(sd, "WsGen", workers=1, timeout=600)
         if g["error"]:
             raise vlib.Infra("TLC error in WsGen: %s\n%s" % (g["error"], g["tail"]))
-        scripts = [s for s in vlib.tlc_lines(g["out_path"], "TEST") if s["event"] == "peerBad"]
+        scripts = [s for s in vlib.tlc_lines(g["out_path"], "TEST") if s["event"] in events]
         scripts.sort(key=lambda r: json.dumps(r, sort_keys=True))
         scripts = [dict(s) for _ in range(3 if q else 20) for s in scripts]
         for i, s in enumerate(scripts):
             s["id"] = i
         if not scripts:
-            raise vlib.Infra("WsGen produced no peerBad rows")
+            raise vlib.Infra("WsGen produced no rows for %s" % (events,))
         sp = os.path.join(sc, "scripts.ndjson")
         with open(sp, "w") as f:
             for s in scripts:
@@ -63,8 +64,8 @@ def collect_ws(prop, tier):
                 path = vlib.save_replay(prop, "ws-script-%d" % mon["id"], dict(property=prop, key=mon["key"], wsscript=byid[mon["id"]]))
                 violations.append((vlib.key_str(mon["key"][1:]), path))
         return dict(violations=violations, known_hits=known_hits, notes=sorted(notes),
-                    coverage=dict(rows=len(scripts), rule="frames a SHIP peer must never send (text, 1 byte, empty, 1 MB, ping with payload) at "
-                                                          "every placement, followed by a regular frame, on a real ws.WebsocketConnection"))
+                    coverage=dict(rows=len(scripts), rule=rule or "frames a SHIP peer must never send (text, 1 byte, empty, 1 MB, ping with payload) at "
+                                                                  "every placement, followed by a regular frame, on a real ws.WebsocketConnection"))
 
 
 def collect(prop, tier):
